@@ -414,9 +414,10 @@ const (
 	c09ActError          // transport error
 	c09ActCanceled       // context.Canceled-like error (must not retire the forwarder)
 	c09ActAbort          // teardown
+	c09ActCtxCanceled    // not drawn: the call's own context was cancelled while it was parked
 )
 
-var c09ActNames = []string{"ok", "foreign", "trunc", "timeout", "error", "canceled", "abort"}
+var c09ActNames = []string{"ok", "foreign", "trunc", "timeout", "error", "canceled", "abort", "ctx-cancelled"}
 
 type c09Action struct {
 	kind    int
@@ -543,6 +544,7 @@ type c09Call struct {
 	returned bool
 	act      c09Action
 	lateAtRelease bool
+	ctxCancelled  bool // returned on its own because its context was cancelled
 }
 
 type c09FactoryCall struct {
@@ -622,11 +624,26 @@ func (f *c09Fwd) ForwardDNS(ctx context.Context, data []byte) (*dnsmessage.Msg, 
 	f.callsStarted++
 	w.mu.Unlock()
 
+	// Like the stream transports (pipelinedConn.RoundTrip, DoH, DoQ) a parked call gives
+	// up when its context is cancelled; an expired deadline alone keeps it parked
+	// (that is the "late answer" behaviour).
 	var act c09Action
-	select {
-	case act = <-call.ch:
-	case <-w.abortCh:
-		act = c09Action{kind: c09ActAbort}
+	done := ctx.Done()
+	for waiting := true; waiting; {
+		select {
+		case act = <-call.ch:
+			waiting = false
+		case <-w.abortCh:
+			act = c09Action{kind: c09ActAbort}
+			waiting = false
+		case <-done:
+			if errors.Is(ctx.Err(), context.Canceled) {
+				act = c09Action{kind: c09ActCtxCanceled}
+				waiting = false
+			} else {
+				done = nil
+			}
+		}
 	}
 	var (
 		msg *dnsmessage.Msg
@@ -634,6 +651,11 @@ func (f *c09Fwd) ForwardDNS(ctx context.Context, data []byte) (*dnsmessage.Msg, 
 	)
 	q := req.Question[0]
 	switch act.kind {
+	case c09ActCtxCanceled:
+		err = ctx.Err()
+		w.mu.Lock()
+		call.ctxCancelled = true
+		w.mu.Unlock()
 	case c09ActOK:
 		msg = c09BuildAnswer(q, act.respID, act.ansKind)
 	case c09ActForeign:
